@@ -55,6 +55,10 @@ def gen_plan(rng, tier):
     if rng.random() < 0.3:
         p['slow_node'] = {'node': rng.randrange(n), 'mult': rng.choice([20, 100])}
     p['exec']['reconnect_delay'] = rng.choice([0.2, 0.5])
+    if rng.random() < 0.5:
+        # the session has a keyspace: every new pooled connection (also a replacement) issues USE before it is installed
+        p['session_keyspace'] = 'ks1'
+        p['use_delay'] = rng.choice([0.0, 0.02, 0.1, 0.4])
     return p
 
 
